@@ -52,6 +52,15 @@ func (check fieldConstraints) checkRange(v val.Value, t *meta.Type) error {
 	if len(t.Range()) == 0 {
 		return nil
 	}
+	if l, isList := v.(val.Listable); isList {
+		// each element of a leaf-list on its own
+		for i := 0; i < l.Len(); i++ {
+			if err := check.checkRange(l.Item(i), t); err != nil {
+				return err
+			}
+		}
+		return nil
+	}
 	// every range statement along the typedef chain restricts further (RFC7950 Sec
 	// 9.2.4), the alternatives of one statement are checked by Range.CheckValue
 	for _, r := range t.Range() {
